@@ -245,6 +245,7 @@ def repeat_check(ctx, nscripts, nsteps):
     command taken from the queue has the effect Vi!ViCmd gives the same command when typed, (c) the two-run relation: the
     script and its expansion (every . and @ replaced by the keys it stands for) end in the same text, cursor and registers."""
     scripts = gen(ctx, "repeat", nscripts // 2, nsteps, ai=1) + gen(ctx, "repeat", nscripts - nscripts // 2, nsteps, ai=0)
+    scripts += gen(ctx, "rcorpus", 1, 4, ai=1)          # 104. of a five-byte insert: the queue holds more than 512 bytes
     nthm = 0
     for sc in scripts:
         for s in sc["steps"]:
